@@ -329,4 +329,14 @@ def Lock.fullyAcquiredB (lk : Lock) : Bool := lk.acquiredCount == lk.keys.length
 /-- the node of key `k` (in the slot the key hashes to) -/
 def nodeOf (cfg : Cfg) (s : State) (k : Key) : Option Node := findNode (s.slots (cfg.slotOf k)).queue k
 
+/-- the node of `k` exists and has a holder -/
+def HasHolder (cfg : Cfg) (s : State) (k : Key) : Prop :=
+  ∃ n h, nodeOf cfg s k = some n ∧ n.holder = some h
+
+/-- some lock sits in a pending wake-up list for `k` (returned by a `releaseSlot`, its `acquire` not yet run),
+    it is not stale, and the node of `k` (if it still exists) would not make it stale -/
+def HasWoken (cfg : Cfg) (s : State) (k : Key) : Prop :=
+  ∃ w lkw, s.locks w = some lkw ∧ lkw.phase = .woken ∧ lkw.isStale = false ∧ lkw.nextKey = some k ∧
+    ∀ n, nodeOf cfg s k = some n → n.maxCommitTS ≤ lkw.startTS
+
 end CGV.Latch
